@@ -22,6 +22,9 @@ def explore(ctx, art):
     # queued behind the connection-wide limit while holding the endpoint slot of its own path; after the interrupted call has
     # returned, a follow-up request for the same path (context that does not end) must return when the connection is closed
     lines += ["case %s %s queuedg %s" % (t, o, c) for t in ("udp", "tcp") for o in ("get", "observe") for c in CAUSES]
+    # the second use of a connection: the same "after send" cells after a series of one-way writes whose context had already
+    # ended - whatever serialises the writers must not be left taken by a write that gave up (seeded C09-T)
+    lines += ["case %s %s sentaf %s" % (t, o, c) for t in ("udp", "tcp") for o in OPS for c in CAUSES]
     if ctx.tier == "thorough":
         lines = lines * 3     # the scheduler inside a bubble is not seeded: repeat the grid
     # datagram session whose reader returns (and completes the done signal) only 50 ms after Close(): a pending operation
